@@ -33,14 +33,22 @@ const alphabet = "123456789ABCDEFGHJKLMNPQRSTUVWXYZabcdefghijkmnopqrstuvwxyz"
 
 // input is the replayable description of one probe.
 type input struct {
-	Kind string `json:"kind"` // b58 | addr | hex | hexaddr | parse | enc | dec | big | bigstr
-	S    string `json:"s"`    // hex of the bytes of the string / address / buffer
-	Note string `json:"note,omitempty"`
+	Kind string   `json:"kind"` // b58 | addr | hex | hexaddr | parse | enc | dec | big | bigstr | hist | dhist | hhist
+	S    string   `json:"s"`    // hex of the bytes of the string / address / buffer (hist: concatenated 20-byte addresses)
+	L    []string `json:"l,omitempty"` // dhist/hhist: the sequence of strings (hex of their bytes)
+	Note string   `json:"note,omitempty"`
 }
 
 type drv struct {
 	c       *hx.Ctx
 	caseCap map[string]int // remaining Coq cases per kind (the oracle always runs)
+
+	// object history (history.go): one Address object and one result variable reused across all
+	// probes of a run
+	long     *common.Address
+	longHist [][]byte
+	longSeen int
+	res      common.Address
 }
 
 func (d *drv) wantCase(kind string) bool {
@@ -177,6 +185,7 @@ func (d *drv) probeAddr(a []byte, note string, sha bool) string {
 	if want := refEncode(refPayload(23, a)); enc != want {
 		c.Fail("b58:encoding", "ToBase58 is not base58(23 || address || sha256d[0:4])", in, enc, want)
 	}
+	d.longLived(a) // the same address through the run's long-lived Address object
 	c.Nontrivial("addr" + in.S)
 	c.Sample(map[string]interface{}{"kind": "addr:" + note, "addr": in.S, "base58": enc})
 	if sha {
@@ -203,6 +212,7 @@ func (d *drv) probeStr(s string, kind string, orig []byte, sha bool) {
 		return
 	}
 	c.Count("str:" + kind)
+	d.specAndReuse(s, in, got, err)
 	var res string
 	if err == nil {
 		c.Count("str-result:accepted")
@@ -481,6 +491,7 @@ func (d *drv) oracleOnly(s, kind string, orig []byte) {
 		return
 	}
 	c.Count("oracle-only:" + kind)
+	d.specAndReuse(s, in, got, err)
 	if err != nil {
 		return
 	}
@@ -686,6 +697,18 @@ func (d *drv) replayOne(in input) {
 		d.probeParse(b)
 	case "enc", "dec", "big", "bigstr":
 		d.probeLib(in.Kind, b)
+	case "hist":
+		d.history(splitAddrs(b), in.Note)
+	case "dhist", "hhist":
+		var strs []string
+		for _, h := range in.L {
+			strs = append(strs, string(hx.UnHex(h)))
+		}
+		if in.Kind == "dhist" {
+			d.decodeReuse(strs, "decode-reuse")
+		} else {
+			d.hexDecodeReuse(strs)
+		}
 	}
 }
 
@@ -704,6 +727,7 @@ func Run(c *hx.Ctx) {
 		}
 	}
 	d.caseCap["sha"] = c.N(8, 40)
+	d.caseCap["hist"] = c.N(40, 200)
 
 	// fixed and boundary addresses
 	fixed := [][]byte{make([]byte, 20), bytes.Repeat([]byte{0xff}, 20)}
@@ -719,6 +743,9 @@ func Run(c *hx.Ctx) {
 		}
 		d.probeHexAddr(a)
 	}
+	// object histories: reused Address objects / result variables, interleaved with fresh ones
+	d.histories(c.N(60, 600))
+	d.decodeHistories(c.N(20, 200))
 	// the real SHA-256 of Lib/Sha256.v on a few addresses and strings
 	for i := 0; i < c.N(2, 10); i++ {
 		a := d.randAddr()
@@ -771,4 +798,23 @@ func Run(c *hx.Ctx) {
 		d.probeParse(c.Bytes(n))
 	}
 	d.libCases(c.N(60, 600))
+}
+
+// specAndReuse: the decoder against the pure spec (both directions), and the same call into the
+// run's long-lived result variable (must equal the fresh call: no stale or shared state).
+func (d *drv) specAndReuse(s string, in input, got common.Address, err error) {
+	c := d.c
+	want, ok := specDecode(s)
+	if ok && (err != nil || !bytes.Equal(got[:], want)) {
+		c.Fail("b58:rejects-canonical", "the canonical encoding of an address is rejected or decoded to another address", in,
+			map[string]interface{}{"err": fmt.Sprint(err), "decoded": hx.Hex(got[:])}, hx.Hex(want))
+	}
+	var err2 error
+	if p, _ := hx.Recover(func() { d.res, err2 = common.AddressFromBase58(s) }); p {
+		return
+	}
+	if (err == nil) != (err2 == nil) || d.res != got {
+		c.Fail("b58:decode-history-dependent", "decoding the same string twice (fresh and reused result variable) gives different results", in,
+			map[string]interface{}{"first": hx.Hex(got[:]), "first_err": fmt.Sprint(err), "second": hx.Hex(d.res[:]), "second_err": fmt.Sprint(err2)}, "equal results")
+	}
 }
